@@ -236,3 +236,55 @@ func (p *Prog) cutInCtx(e *Env, at ssa.Instruction, mk func(e *Env) func(Fact) b
 	}
 	return "in every calling context: " + strings.Join(uniq(bys), " | "), true, ""
 }
+
+// UnreachableUnder: at some level of the call chain the site (resp. the call leading to it) is unreachable under the assumptions.
+func (s EffectSite) UnreachableUnder(assume []Fact) bool {
+	if len(assume) == 0 {
+		return false
+	}
+	at := s.In
+	for x := s.Env; x != nil; x = x.Parent {
+		if x.unreachableUnder(at.Block(), assume) {
+			return true
+		}
+		if x.Call == nil {
+			break
+		}
+		at = x.Call
+	}
+	return false
+}
+
+// regFlagAssumptions: the receiver fields that the constructor of registration r fills from constant boolean arguments, as facts about
+// the entry point's receiver (e.g. ESDTWipe: wipe == true, freeze == false).
+func regFlagAssumptions(p *Prog, r Registration) []Fact {
+	if r.Ctor == nil || r.Entry == nil || r.CtorCall == nil {
+		return nil
+	}
+	recv := "P:" + paramName(r.Entry.Params[0])
+	var out []Fact
+	for _, b := range r.Ctor.Blocks {
+		for _, in := range b.Instrs {
+			st, ok := in.(*ssa.Store)
+			if !ok {
+				continue
+			}
+			fa, ok := st.Addr.(*ssa.FieldAddr)
+			if !ok {
+				continue
+			}
+			par, ok := st.Val.(*ssa.Parameter)
+			if !ok || par.Type().String() != "bool" {
+				continue
+			}
+			for i, q := range r.Ctor.Params {
+				if q == par && i < len(r.CtorCall.Call.Args) {
+					if bv, ok := boolConst(r.CtorCall.Call.Args[i]); ok {
+						out = append(out, Fact{Atom: "cond:*" + recv + "." + fieldName(fa.X.Type(), fa.Field), Pos: bv, Why: "constant constructor flag of " + r.Key})
+					}
+				}
+			}
+		}
+	}
+	return out
+}
